@@ -871,6 +871,39 @@ def tie_request_streams(ctx):
                                    f"({n_side} delivered on the side); first missing: {lost[0][:160] if lost else None}")
 
 
+async def _stalled_run(n, stall):
+    proc = FakeProcess()
+    with patched_open_process(proc):
+        client = new_client()
+        async with client:
+            lines = [good_line("notif" if i % 3 else "res", i + 1, "")["raw"] for i in range(n)]
+            proc.stdout.feed(b"".join(r + b"\n" for r in lines))
+            await anyio.sleep(stall)                 # the application is busy elsewhere; nobody receives meanwhile
+            main = []
+            with anyio.move_on_after(20):
+                while len(main) < n:
+                    main.append(raw_tag_of(await client._incoming_recv.receive()))
+            proc.stdout.close()
+    return main
+
+
+def tie_stalled_consumer(ctx, only=None):
+    """'delivers on the read stream exactly the well-formed lines, in order' - also when the application does not receive for
+    a long while (virtual clock): more lines than the read stream buffers are waiting, then it drains them - none is missing."""
+    from vloop import vrun
+    for n, stall in ([only] if only else [(150, 33.0), (101, 61.0), (260, 5.0), (100, 40.0)]):
+        main = vrun(_stalled_run, n, stall)
+        case = {"lines_written_at_once": n, "consumer_stalls_for_s": stall}
+        ctx.case(case, nontrivial=True)
+        ctx.count("stalled-consumer")
+        ctx.spec_total += 1
+        want = list(range(1, n + 1))
+        if main != want:
+            ctx.spec_violation("main:" + (classify(want, main) or "differs") + ":after-a-stalled-consumer", case,
+                               f"{n} well-formed lines written, {len(main)} delivered; first missing tag "
+                               f"{next((t for t in want if t not in set(main)), None)}")
+
+
 def tie_exited_child(ctx):
     """What the child wrote before it exited is delivered like the output of a child that stays (one-shot servers, a crash
     right after the last answer): same stream, same chunking, exit status present vs absent."""
@@ -926,6 +959,7 @@ def explore(ctx, drv):
     tie_routing(ctx, drv)
     tie_text_chunks(ctx, drv)
     tie_exited_child(ctx)
+    tie_stalled_consumer(ctx)
     tie_request_streams(ctx)
     if ctx.thorough:
         tie_real_child(ctx, drv)
@@ -964,6 +998,11 @@ def run(ctx):
 def replay(ctx, data):
     drv = RawDriver(lib.Driver("C05"))
     case = data.get("case", {})
+    if "consumer_stalls_for_s" in case:
+        tie_stalled_consumer(ctx, only=(case["lines_written_at_once"], case["consumer_stalls_for_s"]))
+        for f in ctx.spec_fail:
+            print("REPRODUCED", f["class"], f["detail"])
+        return 1 if ctx.spec_fail else 0
     if "request_streams_registered_for" in case:
         chunks = apply_cuts(bytes.fromhex(case["stream"]), tuple(case["cuts"]))
         plain, _ = anyio.run(_reqstream_run, chunks, [])
